@@ -35,6 +35,7 @@ def run(ctx):
     ctx.rule(prep)
     ctx.rule(logfloor)
     ctx.rule(power)
+    ctx.rule(_default_window)
     ctx.rule(si_finalize, "R-C03-frame-count")
 
 
@@ -292,3 +293,8 @@ def logfloor(ctx, R="R-C03-logfloor"):
     sh = [astq.text(n).replace(" ", "") for n in f.node.body if isinstance(n, (ast.Assign, ast.AugAssign))]
     ok = "self._y_buf[:-1]=self._y_buf[1:]" in sh and "self._y_buf[-1]=0" in sh and "self._y_rem-=self._frame_shift" in sh
     ctx.check(ok, R, f, f.node, "emitting a frame shifts the block accumulators by one and consumes frame_shift samples")
+
+
+def _default_window(ctx, R="R-C03-default-window"):
+    from .c02 import default_window
+    default_window(ctx, R, cls="compute.ShortIntegrationFrameComputer", attr="self._window")
